@@ -118,6 +118,54 @@ func (w *Writer) initEmpty() error {
 }
 
 func (w *Writer) recoverTail() error {
+	if err := w.recoverTailState(); err != nil {
+		return err
+	}
+	return w.zeroStaleTail()
+}
+
+// zeroStaleTail overwrites everything in the file beyond the recovered write
+// offset with zeros (and syncs if it changed anything). Recovery relies on the
+// bytes after the last good commit being either zero or part of the single
+// batch that was in flight when we crashed. Without this, frames of a torn
+// batch that recovery discarded would stay behind in the file; a later,
+// shorter batch written over the start of them could then be followed by
+// stale but well-formed frames, which a subsequent recovery would mistake for
+// data written after that batch.
+func (w *Writer) zeroStaleTail() error {
+	off := int64(w.writer.writeOffset)
+	buf := make([]byte, minBufSize)
+	var zeros []byte
+	dirty := false
+	for {
+		n, err := w.wf.ReadAt(buf, off)
+		if err != nil && err != io.EOF {
+			return err
+		}
+		for _, b := range buf[:n] {
+			if b != 0 {
+				if zeros == nil {
+					zeros = make([]byte, minBufSize)
+				}
+				if _, werr := w.wf.WriteAt(zeros[:n], off); werr != nil {
+					return werr
+				}
+				dirty = true
+				break
+			}
+		}
+		off += int64(n)
+		if err == io.EOF || n == 0 {
+			break
+		}
+	}
+	if dirty {
+		return w.wf.Sync()
+	}
+	return nil
+}
+
+func (w *Writer) recoverTailState() error {
 	// We need to track the last two commit frames
 	type commitInfo struct {
 		fh         frameHeader
